@@ -141,7 +141,12 @@ def single_files(tier):
                                        ["R/z"]])
         fmts = sym.choose("fmts", FSETS["quick"])
         names_before = {r: b.manifest_names(r) for r in cm.history_roots(b, "R")}
-        r = b.run("create", root="R", h=fmts, sf=sel)
+        spelled = sym.choose("sf_paths_spelled", ["absolute", "relative-with-dotdot"])
+        if spelled == "absolute":
+            r = b.run("create", root="R", h=fmts, sf=sel)
+        else:
+            # the command is started inside R/z and names the files relative to it (../a.txt, ../d/e, ...)
+            r = b.run("create", root=b.p("R"), cwd="R/z", h=fmts, sf=[posixpath.join("..", cm.rel_to(s_, "R")) for s_ in sel])
         b.require(r.exit == 0 and r.exc is None, "create-exit-0", str(r))
         roots, news = new_manifests(b, None, names_before, "R")
         expected = {hr: {} for hr in roots}
